@@ -32,6 +32,14 @@ for _k, _attr in (("table", "name"), ("column", "name"), ("column", "type"), ("e
         CELLS.append(f"unset/{_k}.{_attr}/{_reach}")
 for _reach in ("never-added", "delete-obj", "delete-pos", "rejected-add", "delete-equal-twin"):
     CELLS.append(f"index-detached/{_reach}")
+# double faults: the detached endpoint column / the detached table's column additionally lacks an attribute
+for _extra in ("type-unset", "name-unset"):
+    for _side in ("col1", "col2"):
+        for _inl in ("inline", "block"):
+            CELLS.append(f"endpoint-detached/delete-obj+{_extra}/{_side}/{_inl}")
+CELLS.append("detached-lookup/table-never-added+nameless-column")
+CELLS.append("detached-lookup/column-without-table+type-unset")
+CELLS.append("detached-lookup/column-of-detached-table+type-unset")
 CELLS.append("endpoint-detached/delete-equal-twin/col1/block")
 CELLS.append("endpoint-detached/delete-equal-twin/col2/block")
 for _reach in ("never-attached", "delete-obj", "delete-pos"):
@@ -233,6 +241,9 @@ class C17Engine(C10.C10Engine):
 
         if kind == "endpoint-detached":
             reach, side, inl = parts[1], parts[2], parts[3] == "inline"
+            extra = None
+            if "+" in reach:
+                reach, extra = reach.split("+")
             t1, t2 = g.choice(tables), g.choice(tables)
             if reach == "never-attached":
                 loose = C.Column("loose", "int")
@@ -333,10 +344,17 @@ class C17Engine(C10.C10Engine):
                 real[t].delete_column(real[c])
             else:
                 real[t].delete_column(pos)
+            saved_attr = None
+            if extra:
+                attr = "type" if extra == "type-unset" else "name"
+                saved_attr = (attr, getattr(real[c], attr))
+                setattr(real[c], attr, None)
             try:
                 self.expect_raises(cell, "ref.sql", lambda: real[r].sql, TNF, ctx)
                 self.expect_raises(cell, "ref.dbml", lambda: real[r].dbml, TNF, ctx)
             finally:
+                if saved_attr:
+                    setattr(real[c], saved_attr[0], saved_attr[1])
                 real[t].add_column(real[c])     # heal: re-attached at the end
                 m[t]["cols"].remove(c)
                 m[t]["cols"].append(c)
@@ -425,7 +443,16 @@ class C17Engine(C10.C10Engine):
 
         if kind == "detached-lookup":
             reach = parts[1]
-            if reach == "table-never-added":
+            if reach == "table-never-added+nameless-column":
+                o = C.Table("never", columns=[C.Column("id", "int"), C.Column(None, "int")])
+                self.expect_raises(cell, "table.get_refs", lambda: o.get_refs(), UDE, ctx)
+            elif reach == "column-without-table+type-unset":
+                o = C.Column("alone", None)
+                self.expect_raises(cell, "column.get_refs", lambda: o.get_refs(), TNF, ctx)
+            elif reach == "column-of-detached-table+type-unset":
+                o = C.Table("never", columns=[C.Column("id", None)])
+                self.expect_raises(cell, "column.get_refs", lambda: o.columns[0].get_refs(), UDE, ctx)
+            elif reach == "table-never-added":
                 o = C.Table("never", columns=[C.Column("id", "int")])
                 self.expect_raises(cell, "table.get_refs", lambda: o.get_refs(), UDE, ctx)
             elif reach == "table-deleted":
